@@ -369,6 +369,27 @@ def check_case(case):
             if not np.array_equal(m, rf["masks"][it - 1]):
                 raise Violation(f"azimuth {j}: accept mask at the start of iteration {it} is {m.astype(int).tolist()}, the published algorithm has {rf['masks'][it - 1].astype(int).tolist()}")
             prev = m
+    # a second call on the same object with the same arguments: with the default options the peak search on entry starts
+    # again from every window with a peak (same decisions, same count); where the call repeats the object's own range and
+    # options it starts from the accept state the first call left
+    refs2 = refs if kw is None else [ref_fdwr(f, A, case["n"], case["max_iterations"], case["dist_fn"], case["dist_mc"], rng, rf["valid"]) for A, rf in zip(groups, refs)]
+    decidable2 = all(r2["status"] == "ok" and r2["margin"] >= 1e-9 for r2 in refs2)
+    count2 = None
+    try:
+        count2, _ = _run(hv, obj, case, rng, kw)
+    except Refusal as r:
+        if decidable2:
+            raise Violation(f"a second frequency_domain_window_rejection call with the same arguments on the same object was refused ({r.exc})")
+        labels.append("second-call-degenerate-refused")
+    if decidable2 and count2 is not None:
+        for j, (h, r2) in enumerate(zip(hs, refs2)):
+            w = np.asarray(h.valid_window_boolean_mask, dtype=bool)
+            if not np.array_equal(w, r2["valid"]):
+                raise Violation(f"{'azimuth %d: ' % j if az else ''}second call with the same arguments on the same object: accepted windows {w.astype(int).tolist()}, "
+                                f"the published algorithm started from {'every window with a peak' if kw is None else 'the state left by the first call'} gives {r2['valid'].astype(int).tolist()}")
+        want2 = max(r2["count"] for r2 in refs2)
+        require(count2 == want2, f"second call with the same arguments on the same object returns {count2} iterations, expected {want2}")
+        labels.append("second-call-same-object")
     # metamorphic: permutation of the windows, rescaling of the amplitudes
     perm_rng = np.random.Generator(np.random.PCG64(case["perm_seed"]))
     perms = [perm_rng.permutation(len(A)) for A in groups]
